@@ -18,13 +18,14 @@ type BarFacts struct {
 	Model      RefBar
 	Final      *h.FinalRec
 	TermAt     int // log index of the return of the mutator that made the model terminal (-1)
+	TermInv    int // log index of that mutator's invocation (-1)
 }
 
 // Facts derives per-bar facts from a history.
 func Facts(hi *Hist) []*BarFacts {
 	out := make([]*BarFacts, len(hi.Sc.Bars))
 	for i := range out {
-		out[i] = &BarFacts{Idx: i, Spec: &hi.Sc.Bars[i], Pred: -1, AddInv: -1, AddRet: -1, TermAt: -1, Sequential: true, Model: NewRefBar(hi.Sc.Bars[i].Total)}
+		out[i] = &BarFacts{Idx: i, Spec: &hi.Sc.Bars[i], Pred: -1, AddInv: -1, AddRet: -1, TermAt: -1, TermInv: -1, Sequential: true, Model: NewRefBar(hi.Sc.Bars[i].Total)}
 		if f, ok := hi.Finals[i]; ok {
 			ff := f
 			out[i].Final = &ff
@@ -60,6 +61,7 @@ func Facts(hi *Hist) []*BarFacts {
 		bf.Model.Apply(op.Op)
 		if !was && bf.Model.Terminal() {
 			bf.TermAt = op.Ret
+			bf.TermInv = op.Inv
 		}
 	}
 	return out
